@@ -85,6 +85,11 @@ CHECKS = {
                   'one row per query label, and each cell equals the two-signature distance formatted to four decimals; --square gives the symmetric zero-diagonal matrix of the queries.',
              note='Trusted: CrossHair path exhaustion; file-reading stubs returning real signature collections; the two-signature distance itself is C02.',
              ref='3/C16'),
+ 'C17': dict(engine='X', technique='CrossHair/z3-driven exhaustive case split: linkage_to_bio_tree on every contract-satisfying linkage matrix (symbolic merge order and height order type); the real tree command end to end on pool genomes with an all-tie-breaks UPGMA oracle',
+             text='For every linkage matrix satisfying scipy\'s contract within the leaf bound the tree has exactly the labels as leaves, is binary and rooted, has non-negative branch lengths, '
+                  'equidistant leaves and pairwise path length twice the joining height; the whole command on pool genomes prints a Newick tree that parses back to such a tree for the true UPGMA of the real distances.',
+             note='Trusted: CrossHair path exhaustion; scipy linkage outside the pool inputs, Newick rounding below 1e-5.',
+             ref='3/C17'),
  'C20': dict(engine='KX', technique='bounded model checking (QF_BV) of AdvancedIndexingMixin.__getitem__/_check_index with a bit-precise numpy dtype model for collection lengths < 2^31; CrossHair-driven exhaustive case split on the real SignatureArray/SignatureList/AnnotatedSignatures',
              text='K: for every integer dtype, every entry value and every collection length below 2^31 the index array reaching _getitem_int_array holds the list-semantics positions, '
                   'out-of-range raises IndexError and the caller\'s array is untouched.  X: every int index, slice triple, index list, mask, 2-3 step mutation sequence and equality variant '
@@ -98,7 +103,7 @@ NOT_APPLICABLE = {
  'C18': 'File immutability is decided inside SQLite/libhdf5 and the file system; the Python remainder has no input to quantify over.',
  'C19': 'Crash points between libhdf5 calls and the library\'s flushing behaviour cannot be encoded symbolically.',
 }
-PENDING = 'check not built yet in this round (planned, see DESIGN.md section 3)'
+PENDING = 'not claimed'
 ALL = [f'C{i:02d}' for i in range(1, 21)]
 
 
